@@ -44,6 +44,7 @@ def base_cases(seed, per_module):
         fam = {}
         for c in cs:
             if c.bounded or getattr(c, 'safety_only', False) or c.cfg.macros or c.cfg.checks: continue
+            if getattr(c, 'alt_group', None): continue       # members of an alternative group only make sense together (targeted_cases takes whole groups)
             if any(f['prop'] == c.prop and f['case'].fullmatch(c.cid) for f in findings): continue   # recorded defect: reported by its own property
             parts = c.cid.split('/')
             key = tuple(parts[1:3])
@@ -114,8 +115,17 @@ def targeted_cases(tier, seed, seen):
         return out
     cs = [c for c in c01.cases(tier, seed) if c.cfg.macros and (tier == 'thorough' or c.cfg.isa == 'sse2')]
     cs += c14.trans_macro_cases(tier)
+    # kernels with a separate FMA branch (#ifdef FASTOR_FMA_IMPL): complex multiply/divide, every ABI of the FMA and non-FMA flag sets
+    try:
+        c08 = importlib.import_module('units.c08')
+        for isa in (('avx', 'avx2') if tier != 'thorough' else ('sse2', 'avx', 'avx2', 'avx512')):
+            cs += [c for c in c08.complex_arith_cases(isa, tier == 'thorough') if re.match(r'C08/c(mul|div)(-assign)?/', c.cid) and (tier == 'thorough' or '/cdouble/' in c.cid)]
+    except Exception:
+        pass
     for c in cs:
         cc = reinstantiate(c, c.cfg)
+        if getattr(c, 'alt_group', None):
+            cc.cid = 'C06/' + c.cid; cc.alt_group = 'C06/' + c.alt_group
         if cc.cid in seen: continue
         seen.add(cc.cid); out.append(cc)
     return out
